@@ -87,6 +87,23 @@ Theorem C04_refund_refused_witness :
 Proof. exact refund_refused_witness. Qed.
 Print Assumptions C04_refund_refused_witness.
 
+(* IBC: FX held as WFX cannot be sent over IBC through crossChain, and an FX deposit with an IBC target cannot be executed,
+   although holder resp. chain module have the coins (finding C04-4); the msg.value path works *)
+Theorem C04_ibc_fx_refuted :
+  let s := steps ex_cfg ex_s0 [OConvertCoin 0 100 100 1000] in
+  1000 <= get2 (0, 100) (ebal (sb s)) /\ snd (step ex_cfg s (OPreCrossChainIbc 0 100 100 false)) = false /\
+  300 <= get2 (1, 0) (bank (sb s)) /\ snd (step ex_cfg s (OSendToFx 1 0 100 300 2)) = false /\
+  snd (step ex_cfg s (OPreCrossChainIbc 0 100 100 true)) = true.
+Proof. exact ibc_fx_refuted. Qed.
+Print Assumptions C04_ibc_fx_refuted.
+
+(* observation: an inbound ICS-20 packet of any denomination other than the native coin is refused in every state (ibc-go
+   gives the voucher bank metadata before the middleware runs; ManyToOne then takes it for a base denom without a pair) *)
+Theorem C04_ibc_voucher_unreceivable : forall g s t tk a x,
+  find_tok g t = Some tk -> is_fx tk = false -> snd (step g s (OIbcRecv t a x)) = false.
+Proof. exact ibc_voucher_unreceivable. Qed.
+Print Assumptions C04_ibc_voucher_unreceivable.
+
 Theorem C04_nonvacuous :
   Forall (op_ok ex_U) ex_hist /\
   map (fun o => snd (step ex_cfg (steps ex_cfg ex_s0 (firstn 0 ex_hist)) o)) (firstn 1 ex_hist) = [true] /\
